@@ -139,7 +139,8 @@ class Layout:
                     elif r < 0.8:
                         parts.append(rng.choice((b'', b'  ', b'\t')) + line_comment(rng) + self.nl())
                     else:
-                        parts.append(block_comment(rng, multiline=rng.random() < 0.5) + self.nl())
+                        # (an own-line block comment may stand deeper than its continuation lines)
+                        parts.append(rng.choice((b'', b'', b'  ', b'\t', b'      ', b'        ')) + block_comment(rng, multiline=rng.random() < 0.5) + self.nl())
                 # indentation
                 if style == 'lines' or rng.random() < 0.5:
                     parts.append(rng.choice((b'', b' ', b'  ', b'    ', b'\t', b' \t ', b'      ')))
